@@ -228,7 +228,7 @@ class Net:
             iv = b.CreateNumpyVector(np.array([t.idx for t in net.inputs], dtype=np.int32))
             ov = b.CreateNumpyVector(np.array([t.idx for t in net.outputs], dtype=np.int32))
             opv = vec(SubGraph.SubGraphStartOperatorsVector, op_offs)
-            anon = net is not self and getattr(net, "anon", False)       # the schema's name field is optional
+            anon = getattr(net, "anon", False) if net is not self else getattr(self, "main_anon", False)   # the name is optional
             sgname = None if anon else b.CreateString(net.sgname if net is not self else "main")
             SubGraph.SubGraphStart(b)
             SubGraph.SubGraphAddTensors(b, tv)
@@ -1893,6 +1893,9 @@ FAMILIES["split_conv"] = fam_split_conv
 def generate(family, seed):
     """family may be "single:<kind>" / "unsupported:<kind>" to fix the operator kind"""
     rng = random.Random("%s/%s" % (family, seed))
+    main_anon = family.endswith("!anon")          # "<family>!anon": the main subgraph carries no name (optional in the schema)
+    if main_anon:
+        family = family[:-len("!anon")]
     fam, _, kind = family.partition(":")
     for _ in range(20):
         net = FAMILIES[fam](rng, kind) if kind else FAMILIES[fam](rng)
@@ -1900,6 +1903,7 @@ def generate(family, seed):
             # one model in four carries the legacy min / max fields on its activation tensors (own generator, so that the
             # other draws of a (family, seed) do not move)
             net.legacy_minmax = random.Random("minmax/%s/%s" % (family, seed)).random() < 0.25
+            net.main_anon = main_anon
             return net
     raise RuntimeError("generator %s produced nothing" % family)
 
